@@ -1,7 +1,7 @@
 (** * point_to_rectangle, point_to_box over the reals:
       feasibility (C10) and optimality (C11) of the model of [Model/DistPrim.v]. *)
 From Coq Require Import Reals Lra Psatz List Bool.
-From D3 Require Import Base.Ops Base.Vec Base.RVec Base.RVec2 Spec.Convex Spec.Prims Model.DistPrim Proofs.DistBase.
+From D3 Require Import Base.Ops Base.Vec Base.RVec Base.RVec2 Base.RVec3 Spec.Convex Spec.Prims Model.DistPrim Proofs.DistBase.
 Local Open Scope R_scope.
 
 (** ** one clipped coordinate: range, and the one-dimensional variational inequality *)
@@ -84,7 +84,7 @@ Lemma point_to_box_feasible (p : V3R) (T : Pose R) (sz : V3R) d cp :
 Proof.
   unfold point_to_box. intros H0 H1 H2 H. apply pair_equal_spec in H. destruct H as [Hd Hc]. subst d cp.
   apply feasible_point. rewrite mulMV_cols. cbn [vx vy vz vscale]. ops_R.
-  set (q := inverse_transform_point T p).
+  set (q := inverse_transform_point_code T p).
   destruct (clip_half (vx q) (vx sz) H0) as [R0 _].
   destruct (clip_half (vy q) (vy sz) H1) as [R1 _].
   destruct (clip_half (vz q) (vz sz) H2) as [R2 _].
@@ -115,7 +115,7 @@ Proof.
   apply is_rotation_cols in HR. destruct HR as (U0 & U1 & U2 & U01 & U02 & U12).
   apply variational_closest. unfold box_of, box_set, pose_x, pose_y, pose_z.
   intros x (y0 & y1 & y2 & Y0 & Y1 & Y2 & ->).
-  rewrite mulMV_cols, inverse_transform_point_coords. cbn [vx vy vz vscale]. ops_R.
+  rewrite mulMV_cols, inverse_transform_point_code_eq, inverse_transform_point_coords. cbn [vx vy vz vscale]. ops_R.
   set (a0 := col (rot T) 0) in *. set (a1 := col (rot T) 1) in *. set (a2 := col (rot T) 2) in *.
   set (t := trans T). set (w := vsub p t).
   destruct (clip_half (dot a0 w) (vx sz) H0) as [_ V0]. specialize (V0 y0 Y0).
